@@ -146,6 +146,7 @@ fn check_master_transmit(m: &mut DpMaster, fdl: &FdlActiveStation, turn: Turn) {
     // ---- what was expected ---------------------------------------------------------------------
     if op == OperatingState::Stop {
         vassert!(res.is_none() && last_changed.is_none(), "C14/stop: nothing happens in Stop");
+        vassert!(!events.cycle_completed && events.peripheral.is_none(), "C14/stop: nothing is reported in Stop");
         return;
     }
     let gc_due = hp == HighPrioOnly::No
@@ -177,6 +178,7 @@ fn check_master_transmit(m: &mut DpMaster, fdl: &FdlActiveStation, turn: Turn) {
         }
         vassert!(m.state.cycle_state == pre_cycle && last_changed.is_none(), "C14/global-control: global control does not touch the cycle or any peripheral");
         vassert!(m.state.last_global_control == Some(now), "C14/global-control: the send time is recorded");
+        vassert!(!events.cycle_completed && events.peripheral.is_none(), "C14/cycle: a global-control turn serves nobody: it reports neither a (second) cycle completion nor a peripheral event");
         kani::cover!(pre_lgc.is_some(), "cover: periodic global control");
         return;
     }
